@@ -90,7 +90,7 @@ def requirements(tier):
         "matrix:qsw": 3000 * k, "matrix:tnw": 3000 * k, "matrix:hyperbolic": 1000 * k, "matrix:elliptic": 1000 * k,
         "matrix:expanded": 1000 * k,
         "frame:orientation-None": 100 * k, "frame:orientation-QSW": 100 * k, "frame:orientation-TNW": 100 * k,
-        "dkep:keplerian-continuous-man": 2000 * k, "frame:reference-is-an-ephemeris": 15 * k, "frame:reference-orbit-about-the-moon": 20 * k, "frame:origin": 900 * k, "frame:roundtrip": 900 * k, "frame:axes": 900 * k, "frame:moving": 120 * k, "frame:static": 20 * k,
+        "dkep:keplerian-continuous-man": 2000 * k, "dkep:keplerian-continuous-man-second-state": 2000 * k, "knum:iter-from-later-start": 40 * k, "knum:later-start:applications-counted": 60 * k, "knum:later-start:impulse-far": 15 * k, "frame:reference-is-an-ephemeris": 15 * k, "frame:reference-orbit-about-the-moon": 20 * k, "frame:origin": 900 * k, "frame:roundtrip": 900 * k, "frame:axes": 900 * k, "frame:moving": 120 * k, "frame:static": 20 * k,
         "mandv:impulsive": 1500 * k, "mandv:continuous": 1500 * k, "mandv:tag-QSW": 500 * k, "mandv:tag-TNW": 500 * k, "mandv:tag-None": 500 * k,
         "mandv:hyperbolic": 300 * k, "mandv:duration-multi-day": 200 * k, "mandv:duration-whole-days": 200 * k, "mandv:check-tiling": 1000 * k,
         "dkep:judged": 3000 * k, "dkep:da": 1000 * k, "dkep:di": 1000 * k, "dkep:dOmega": 1000 * k, "dkep:realised": 2000 * k,
@@ -676,6 +676,18 @@ def case_dkep(ctx, job, idx, rng, st):
                   msg=f"KeplerianContinuousMan over {dur} s: accel x duration differs from the dkep2dv vector by {np.linalg.norm(acc * dur - R.T @ dv_tnw):.3e} m/s")
         ctx.expect(cman.check(epoch + _td(seconds=dur / 2)) and not cman.check(epoch + _td(seconds=dur)) and not cman.check(epoch - _td(seconds=1)),
                    "C17/continuous-check-window", dict(w, duration_s=dur), "KeplerianContinuousMan.check is not true exactly on [start, stop[")
+        # history: the same maneuver object evaluated on ANOTHER state (later in the burn, or shared by Orbit.copy() with
+        # another orbit): the acceleration is that of the increments at the state it is asked for
+        kb = bound_orbit(rng, st, i_range=(0.2, math.pi - 0.2))
+        rb, vb = el.kep2cart(kb["a"], kb["e"], kb["i"], kb["raan"], kb["argp"], kb["nu"], mu)
+        orb_b = Orbit(np.concatenate([rb, vb]), epoch, "cartesian", "EME2000", "Kepler")
+        exp_b = hill.tnw_rows(rb, vb).T @ np.array(dkep2dv(orb_b, da=da, di=di, dOmega=dO), float)
+        acc_b = np.array(cman.accel(orb_b), float)
+        ctx.count("dkep:keplerian-continuous-man-second-state")
+        nb_ = float(np.linalg.norm(exp_b))
+        ctx.resid("dkep:keplerian-continuous-man:second state", float(np.linalg.norm(acc_b * dur - exp_b)), 1e-12 * nb_ + 1e-300,
+                  key="C17/keplerian-continuous-accel-is-that-of-an-earlier-state", witness=dict(w, duration_s=dur, second_state=np.concatenate([rb, vb]), accel=acc_b, expected_dv=exp_b),
+                  msg="KeplerianContinuousMan evaluated on a second state: accel x duration is not the dkep2dv vector of that state")
     except Exception as exc:
         ctx.violation("C17/keplerian-continuous-man-raises", dict(w, exc=repr(exc)), f"KeplerianContinuousMan raised {exc!r}")
     if idx % 5 == 0:
@@ -731,6 +743,78 @@ def parse_log(log):
                 steps.append(cur)
             cur = None
     return steps
+
+
+def later_start_scenario(ctx, rng, st, epoch, edesc):
+    """The same orbit and impulses iterated from a start LATER than the epoch: the propagator first marches from the epoch to
+    the start (and past it, for its 8-point interpolation), then restarts from the start.
+      (1) hook: in the chain that restarts at `start`, every impulse dated inside (start, stop) is applied exactly once;
+      (2) end state vs the propagation from the epoch: equal up to the step-grid freedom of the statement ("no later than one
+          integration step after its date": |dv| x h per impulse) -- unless an impulse lies within the 8 steps after the
+          start, where the start state itself is interpolated across the velocity jump (known finding, recorded under its key:
+          the difference is then unrelated to how many times the impulse is applied, which (1) decides)."""
+    from beyond.dates import timedelta
+    from beyond.env.solarsystem import get_body
+    from beyond.orbits import Orbit
+    from beyond.orbits.man import ImpulsiveMan
+    from beyond.propagators.keplernum import KeplerNum
+
+    h_s = rng.choice([10, 20])
+    n_steps = rng.randint(40, 70)
+    k, state = knum_orbit(rng, st, epoch, h_s, n_steps)
+    span = n_steps * h_s
+    start_s = rng.randint(1, 12) * h_s + rng.choice([0.0, rng.uniform(0.0, h_s)])
+    near = rng.random() < 0.5
+    t1 = start_s + (rng.uniform(0.05, 6.5) if near else rng.uniform(9.0, 14.0)) * h_s
+    t2 = rng.uniform(t1 + 2 * h_s, span - 2 * h_s)
+    mag = rng.uniform(1.0, 10.0)
+    dv1, dv2 = rand_dir(rng) * mag, rand_dir(rng) * mag
+    tag = rng.choice([None, "TNW", "QSW"])
+    mans = []
+
+    def fresh():
+        o = Orbit(state, epoch, "cartesian", "EME2000", KeplerNum(timedelta(seconds=h_s), get_body("Earth"), method="rk4"))
+        o.maneuvers = [ImpulsiveMan(epoch + timedelta(seconds=t1), dv1.copy(), frame=tag), ImpulsiveMan(epoch + timedelta(seconds=t2), dv2.copy(), frame=tag)]
+        return o
+
+    w = dict(k, scenario="iter(start=later) vs the propagation from the epoch", h_s=h_s, span_s=span, start_s=start_s, impulses_s=[t1, t2], dv=[dv1, dv2], frame_tag=tag, epoch=edesc)
+    log = st["log"]
+    del log[:]
+    start_date = epoch + timedelta(seconds=start_s)
+    try:
+        with probe.CallBudget(KeplerNum, "_make_step", 100 * n_steps + 100):
+            oa = fresh()
+            a = list(oa.iter(start=start_date, stop=epoch + timedelta(seconds=span), step=timedelta(seconds=h_s)))[-1]
+            steps = parse_log(log)
+            del log[:]
+            b = fresh().propagate(a.date)
+    except Exception as exc:
+        del log[:]
+        ctx.violation("C17/knum-propagation-raises", dict(w, exc=repr(exc)), f"iteration from a later start raised {exc!r}")
+        return
+    del log[:]
+    ctx.count("knum:iter-from-later-start")
+    ctx.count("knum:later-start:impulse-" + ("within-8-steps" if near else "far"))
+    # (1) the chain that restarts at the start date
+    first = [j for j, s_ in enumerate(steps) if abs(us_between(s_["pre_date"], epoch) - round(start_s * 1e6)) <= 1]
+    if not first:
+        ctx.count("knum:later-start:restart-not-identified (not judged)")
+    else:
+        chain = steps[first[-1]:]
+        for name, man, t in (("first", oa.maneuvers[0], t1), ("second", oa.maneuvers[1], t2)):
+            napp = sum(1 for s_ in chain for ev in s_["dvs"] if ev[1] is man)
+            ctx.count("knum:later-start:applications-counted")
+            ctx.expect(napp == 1, "C17/knum-impulse-not-applied" if napp == 0 else "C17/knum-impulse-applied-more-than-once",
+                       dict(w, impulse=name, impulse_s=t, applications_in_the_chain_restarted_at_start=napp),
+                       f"iter(start=epoch+{start_s:.1f} s): the {name} impulse (epoch+{t:.1f} s) is applied {napp} times in the chain that restarts at the start")
+    # (2) end state
+    d = float(np.linalg.norm(probe.arr(a)[:3] - probe.arr(b)[:3]))
+    allowed = 1.2 * 2 * mag * h_s + 1.0
+    key = "C17/knum-later-start-state-interpolated-across-an-impulse" if near else "C17/knum-later-start-differs-from-epoch-start"
+    ctx.resid("knum:later-start vs epoch-start (m)" + (" [impulse within 8 steps of the start]" if near else ""), d, allowed, key=key,
+              witness=dict(w, last_state_from_later_start=probe.arr(a), same_date_from_epoch=probe.arr(b), difference_m=d, effect_of_one_impulse_m=mag * (span - t1)),
+              msg=f"the state at the end of iter(start=epoch+{start_s:.1f}s) differs by {d:.3f} m from the propagation from the epoch "
+                  f"(step-grid freedom allows {allowed:.1f} m); first impulse {(t1 - start_s) / h_s:.2f} steps after the start")
 
 
 def case_knum(ctx, job, idx, rng, st):
@@ -850,6 +934,9 @@ def case_knum(ctx, job, idx, rng, st):
     if not steps:
         ctx.inconclusive_if(True, "hooks on KeplerNum._make_step saw no call")
         return
+    if not burn_job and idx % 4 == 0:
+        later_start_scenario(ctx, rng, st, epoch, edesc)
+        del log[:]
     # ---- per step: "state + delta-v", thrust is an acceleration on the right stages ------------------
     applied = {}
     ontime = {}
